@@ -27,7 +27,8 @@ theorem vcOf_eq (v now vt : ℚ) (size : Nat) : vcOf v now vt size = (if v = 0 t
   rfl
 
 /-- an accepted `put`, step by step -/
-theorem put_spec (c : VcCfg ℚ) (st st' : VcSt ℚ) (now A : ℚ) (p : SPkt) (h : put c st now p = .ok (st', A)) :
+theorem put_spec (c : VcCfg ℚ) (st st' : VcSt ℚ) (now : ℚ) (total : Int) (A : ℚ) (p : SPkt)
+    (h : put c st now total p = .ok (st', A)) :
     ∃ k v a vt, lookup c.flow2class p.flow = some k ∧ lookup st.vc k = some v ∧ lookup st.aux k = some a ∧
       lookup c.vticks k = some vt ∧ A = auxOf now a vt ∧
       st' = { vc := setKey st.vc k (vcOf v now vt p.size), aux := setKey st.aux k (auxOf now a vt) } := by
@@ -48,9 +49,9 @@ theorem put_spec (c : VcCfg ℚ) (st st' : VcSt ℚ) (now A : ℚ) (p : SPkt) (h
           obtain ⟨rfl, rfl⟩ := h
           exact ⟨k, v, a, vt, hk, hv, ha, hvt, rfl, rfl⟩
 
-theorem put_ok (c : VcCfg ℚ) (st : VcSt ℚ) (now : ℚ) (p : SPkt) (k : Nat) (v a vt : ℚ)
+theorem put_ok (c : VcCfg ℚ) (st : VcSt ℚ) (now : ℚ) (total : Int) (p : SPkt) (k : Nat) (v a vt : ℚ)
     (hk : lookup c.flow2class p.flow = some k) (hv : lookup st.vc k = some v) (ha : lookup st.aux k = some a)
-    (hvt : lookup c.vticks k = some vt) : ∃ r, put c st now p = .ok r := by
+    (hvt : lookup c.vticks k = some vt) : ∃ r, put c st now total p = .ok r := by
   unfold put
   simp only [hk, hv, ha, hvt]
   exact ⟨_, rfl⟩
@@ -131,7 +132,7 @@ theorem step_vinv {c : VcCfg ℚ} (hp : Pos c) {s s' : VState} {a : StAct ℚ} {
     have := sub (pre ++ post) (by rw [hl]; simp)
     exact ⟨this.kvc, this.kaux, this.cap, this.srt⟩
   | put p sch stamp h1 =>
-    obtain ⟨k, v, a, vt, hk, hvv, ha, hvt, rfl, rfl⟩ := put_spec c _ _ _ _ _ h1
+    obtain ⟨k, v, a, vt, hk, hvv, ha, hvt, rfl, rfl⟩ := put_spec c _ _ _ (qcTotal s.queueCount) _ _ h1
     have hgt : a < auxOf s.now a vt := by
       rw [auxOf_eq]
       have := hp.vt k vt hvt
@@ -192,7 +193,7 @@ theorem step_no_raise {c : VcCfg ℚ} (hp : Pos c) {s : VState} (hv : VInv c s) 
     obtain ⟨k, vt, hk, hvt⟩ := hconf p hpa
     obtain ⟨v, hvv⟩ := Option.isSome_iff_exists.mp (hv.kvc k (by simp [hvt]))
     obtain ⟨a', ha'⟩ := Option.isSome_iff_exists.mp (hv.kaux k (by simp [hvt]))
-    exact put_ok c s.sch s.now p k v a' vt hk hvv ha' hvt
+    exact put_ok c s.sch s.now (qcTotal s.queueCount) p k v a' vt hk hvv ha' hvt
   · intro p _
     exact ⟨s.sch, rfl⟩
 
